@@ -112,6 +112,106 @@ theorem no_crash_sequence (es : List Event) : ∀ n : Node, bad (run .fixed n es
     · exact ih _
 
 
+/-! ### full strength for every vector of outcome flags
+
+`Flags.fixed` fixes the four *outcome* flags (they describe which of two harmless outcomes a tree produces, not a panic
+site). The tree carrying the repairs measures other values for them, so the theorems are proved again for ALL of them. -/
+
+/-- every panic/stall site repaired; the four measured outcome classes taken from `o` -/
+def Flags.withSites (o : Flags) : Flags :=
+  { Flags.fixed with spendMissingRejected := o.spendMissingRejected,
+                     spendMissingRejectedBrowser := o.spendMissingRejectedBrowser,
+                     spendMissingRejectedSpv := o.spendMissingRejectedSpv,
+                     gtShortRejectedAtVerify := o.gtShortRejectedAtVerify }
+
+theorem hsResponse_sites (o : Flags) (n : Node) (p : Peer) (ver sig minor : Bool) (k : Nat) :
+    bad (hsResponse (Flags.withSites o) n p ver sig minor k).out = false := by
+  unfold hsResponse
+  simp only [Flags.withSites, Flags.fixed]
+  repeat' split
+  all_goals simp_all [bad]
+
+theorem routeMsg_sites (o : Flags) (n : Node) (p : Peer) (m : MsgC) : bad (routeMsg (Flags.withSites o) n p m).out = false := by
+  cases m <;> simp only [routeMsg, Flags.withSites, Flags.fixed]
+  case resp ver sig minor k =>
+    split
+    · simp [bad]
+    · exact hsResponse_sites o ..
+  all_goals (repeat' split)
+  all_goals simp_all [bad]
+
+theorem onMsg_sites (o : Flags) (n : Node) (i : Nat) (m : MsgC) : bad (onMsg (Flags.withSites o) n i m).out = false := by
+  unfold onMsg
+  split
+  · simp [bad]
+  · simp only []
+    split
+    · simp [bad]
+    · split
+      · simp only [Flags.withSites, Flags.fixed, if_true]; exact routeMsg_sites o ..
+      · simp only [Flags.withSites, Flags.fixed, if_true]; exact routeMsg_sites o ..
+      · exact routeMsg_sites o ..
+
+theorem runV_sites (o : Flags) (n : Node) : bad (runV (Flags.withSites o) n).out = false := by
+  cases h : o.gtShortRejectedAtVerify <;>
+  · unfold runV
+    simp only [Flags.withSites, Flags.fixed, h]
+    repeat' split
+    all_goals simp_all [bad]
+
+theorem runC_sites (o : Flags) (n : Node) : bad (runC (Flags.withSites o) n).out = false := by
+  cases h1 : o.spendMissingRejected <;> cases h2 : o.spendMissingRejectedBrowser <;> cases h3 : o.spendMissingRejectedSpv <;>
+  · unfold runC
+    simp only [Flags.withSites, Flags.fixed, h1, h2, h3]
+    repeat' split
+    all_goals simp_all [bad]
+
+theorem tick_sites (o : Flags) (n : Node) (b : Bool) : bad (tick (Flags.withSites o) n b).out = false := by
+  simp only [tick, Flags.withSites, Flags.fixed, Bool.not_true, Bool.and_false, Bool.false_eq_true, if_false]
+  split <;> rfl
+
+/-- **C11, full strength, any measured outcome classes**: with the twelve reproduced panic/stall sites repaired and
+    WHATEVER the four measured outcome flags are (what a node in each mode does with a block spending a missing output,
+    whether the verification thread already refuses a malformed ticket payload), whatever the node summary and whatever the
+    event (any tag, any payload class, any connection event, any fetched-block class, any schedule step), the handler
+    returns normally — the outcome is `handled`, `rejected`, `rateLimited` or `disconnected`. -/
+theorem C11_sites (o : Flags) (n : Node) (e : Event) : bad (handle (Flags.withSites o) n e).2 = false := by
+  unfold handle step
+  cases e <;> simp only
+  case msg p m => exact onMsg_sites o ..
+  case connect p => simp only [onConnect]; repeat' split
+                    all_goals simp_all [bad]
+  case connectFailed => simp [bad]
+  case disconnect p => unfold onDisconnect; split <;> simp [bad]
+  case fetched p b => simp only [onFetched]; repeat' split
+                      all_goals simp_all [bad]
+  case fetchFailed p => simp [bad]
+  case runV => exact runV_sites o ..
+  case runC => exact runC_sites o ..
+  case tick b => exact tick_sites o ..
+  case advance => simp [bad]
+
+theorem C11_sites_no_panic (o : Flags) (n : Node) (e : Event) (s : Site) : (handle (Flags.withSites o) n e).2 ≠ .panic s := by
+  intro h; have := C11_sites o n e; rw [h] at this; simp [bad] at this
+
+theorem C11_sites_no_stall (o : Flags) (n : Node) (e : Event) : (handle (Flags.withSites o) n e).2 ≠ .stall := by
+  intro h; have := C11_sites o n e; rw [h] at this; simp [bad] at this
+
+/-- hence for every event SEQUENCE, by induction over the list, from every node summary -/
+theorem no_crash_sequence_sites (o : Flags) (es : List Event) : ∀ n : Node, bad (run (Flags.withSites o) n es).2 = false := by
+  induction es with
+  | nil => intro n; simp [run, bad]
+  | cons e es ih =>
+    intro n
+    have h := C11_sites o n e
+    unfold run
+    split
+    · next n' s heq => rw [heq] at h; simp [bad] at h
+    · next n' heq => rw [heq] at h; simp [bad] at h
+    · exact ih _
+
+
+
 /-! ### refused input is inert (every flag vector) -/
 
 theorem findPeer_idx {ps : List Peer} {i : Nat} {p : Peer} (h : findPeer ps i = some p) : p.idx = i := by
